@@ -80,10 +80,7 @@ func (rs *RelationService) VerifFlush() error { return rs.fs.flushPages() }
 // VerifAbandon closes the file handles without flushing anything (the process
 // "dies"); only valid for services opened with autoFlush=false.
 func (rs *RelationService) VerifAbandon() {
-	if rs.fs.autoFlushCache {
-		rs.fs.ticker.Stop()
-		rs.fs.tickerDone <- true
-	}
+	rs.fs.stopFlusher()
 	rs.wal.close()
 	rs.fs.file.Close()
 }
